@@ -9,8 +9,8 @@ PROP = {
         "Multi.C06.reextent_noop",
         "Multi.C06.reextent_noop_pool",
         "Multi.C06.reextent_moved_law",
-        "Multi.C06.reextent_law_partial",
-        "Multi.C06.reextent_fresh_block",
+        "Multi.C06.reextent_law_values",
+        "Multi.C06.reextent_law",
         "Multi.C06.clear_empty",
         "Multi.C06.reshape_flat",
         "Multi.C06.assign_exact",
